@@ -55,7 +55,7 @@ def _run_one(args):
     except SyntaxError as e:
         return (m["id"], "failed", f"mutant does not parse: {e}")
     try:
-        prog = Program(repo, overrides=ov)
+        prog = core.make_program(prop_id, repo, overrides=ov)
         ctx = core.analyse(prop_id, repo, "quick", prog=prog)
     except AnalysisError as e:
         if m.get("expect") == "ANALYSIS":
